@@ -119,15 +119,19 @@ pub fn record(run: &Run, name: &str, u: &crate::universe::Universe, cfg: &Cfg, s
         json!({
             "universe": {"name": name, "blocks_main": u.chains[0].blocks.len(), "chains": u.chains.len(), "notes": u.notes.len(), "segments": u.seg_start.len() - 1},
             "states": stats.states, "transitions": stats.transitions, "refused_operations": stats.refused,
+            "transitions_into_visited_states": stats.duplicates, "state_check_evaluations": stats.state_checks,
             "per_depth_frontier": stats.per_depth, "capped": stats.capped,
+            "complete_within_bounds": stats.capped.is_none(),
+            "frontier_at_depth_bound": if stats.per_depth.len() > cfg.max_depth { stats.per_depth.last().copied().unwrap_or(0) } else { 0 },
             "bounds": {"max_depth": cfg.max_depth, "max_rewinds": cfg.max_rewinds, "tips": cfg.tips, "rewind_heights": cfg.rewind_heights, "splits": cfg.splits,
                        "with_roots": cfg.with_roots, "with_client": cfg.with_client, "free_scans": cfg.free_scans, "segment_scans": cfg.segment_scans, "max_run": if cfg.max_run == usize::MAX { 0 } else { cfg.max_run }, "retention_interval": cfg.retention},
         }),
     );
+    // The depth bound is a stated bound of the exploration (section "bounds"), not a cap: a search
+    // that expanded every state up to it is complete within its bounds. Caps are the wall, state and
+    // memory limits that cut a search short of its bounds.
     if let Some(c) = &stats.capped {
         run.cap_hit(&format!("{name}: {c}"));
-    } else if stats.per_depth.len() > cfg.max_depth && stats.per_depth.last().copied().unwrap_or(0) > 0 {
-        run.cap_hit(&format!("{name}: depth bound {} reached with a non-empty frontier", cfg.max_depth));
     }
     for f in failures {
         let key = match f.signature() {
